@@ -79,6 +79,17 @@ def ob_accept_loop(report):
             removed = [e for e in evs[first + 1:] if e.kind == 'remove']
             awaited = [e for e in between if e.kind == 'poll' and 'PollFn' not in str(e.name)]
             second_iter = len(polls) > 1 or r.tag == 'loop-bound'
+            # every arm future of the select! is created afresh for each iteration: a completed `async fn` future must not be polled again
+            ARM = re.compile(r'(accept_uni|accept_bi|read_datagram|join_next)$')
+            made1 = {ARM.search(str(e.name)).group(1) for e in evs[:first] if e.kind in ('call', 'enter') and ARM.search(str(e.name))}
+            if len(polls) > 1 and made1:
+                made2 = {ARM.search(str(e.name)).group(1) for e in evs[first + 1:polls[1]] if e.kind in ('call', 'enter') and ARM.search(str(e.name))}
+                order = ['accept_uni', 'accept_bi', 'read_datagram', 'join_next']
+                fired = order[arm] if arm is not None and arm < len(order) else None
+                stale = [fired] if fired in made1 and fired not in made2 else []       # only the arm that completed must be fresh
+                if stale:
+                    return viol(ob, [ex], f'the accept loop polls its `{stale[0]}` future again in the next iteration without re-creating it: once that arm has fired, '
+                                'the completed `async fn` future is resumed (panic) - one stray datagram / stream takes the connection handler down', 'loop-stale-arm:' + stale[0], path_summary(r), len(res))
             if arm in (0, 2) and okarm:          # accept_uni / read_datagram delivered something
                 seen.add(f'arm{arm}-ok')
                 if r.tag in ('panic', 'diverge') and len(polls) == 1:
